@@ -385,6 +385,21 @@ def forms_for(dim, rng, flavour):
     mass = {'name': 'mass', 'expr': 'u*v*dx', 'symmetric': True}
     conv = {'name': 'convection-field', 'expr': 'inner(grad(u),grad(f))*v*dx', 'fields': field}
     load = {'name': 'load', 'expr': 'f*v*dx', 'fields': field}
+    if flavour == 4:
+        # a SESSION: one bilinear form and three different functionals (one of them the default right-hand side with f
+        # in physical coordinates) assembled on ONE HDiscretization object per basis, in listed / reverse order
+        G = rng.choice(['id', 'curved', 'id'])
+        poly = G == 'id'
+        # (the parametric input field is called g here: 'f' is the physical right-hand side function of assemble_rhs)
+        gfield = {'g': field['f']}
+        load = {'name': 'load', 'expr': 'g*v*dx', 'fields': gfield}
+        gradload = {'name': 'grad-load', 'expr': 'inner(grad(g),grad(v))*dx', 'fields': gfield}
+        rhs = {'name': 'rhs-default', 'kind': 'assemble_rhs', 'expr': '<f,v> with f physical',
+               'fphys': [rng.choice([1, 2, -1]), rng.choice([1, 3, -2]), rng.choice([0, 2, 5]), 1][:dim + 1]}
+        fl = [dict(mass, geo=G, polynomial=poly, entry='session'), dict(load, geo=G, polynomial=poly, entry='session'),
+              dict(gradload, geo=G, polynomial=poly, entry='session'), dict(rhs, geo=G, polynomial=poly, entry='session')]
+        rng.shuffle(fl)
+        return fl if dim < 3 else [dict(mass, geo='id', polynomial=True)]
     if flavour == 0:
         fl = [dict(stiff, geo='id', polynomial=True), dict(load, geo='id', polynomial=True, entry='hdiscr')]
     elif flavour == 1:
@@ -457,6 +472,22 @@ def gen_cases(ctx):
     add([uniform_axis(2, 3)], 2, False, 'default',
         [{'kind': 'refine', 'marks': [[0, [[0]]]], 'container': 'set'}, {'kind': 'refine', 'marks': [[0, [[1]]]], 'container': 'set'},
          {'kind': 'refine', 'marks': [[1, [[0], [1]]]], 'container': 'tuple'}], 1, 'hand-1d-assemble-between', 400, between=True)
+    # isolated deep refinement with high degree: EMPTY intermediate levels (numactive (7, 0, 0, 4)), THB
+    add([uniform_axis(4, 3)], None, True, [],
+        [{'kind': 'refine', 'marks': [[0, [[1]]]], 'container': 'set'}, {'kind': 'refine', 'marks': [[1, [[2], [3]]]], 'container': 'set'},
+         {'kind': 'refine', 'marks': [[2, [[4], [5], [6], [7]]]], 'container': 'list'}], 4, 'hand-1d-empty-levels', 400, between=True)
+    for c in range(6 if thorough else 1):
+        # an interior cell, then all its children, then all grandchildren (+ sometimes one more call)
+        p = 4 if c % 2 == 0 else 3
+        ops = [{'pick': 'interior', 'container': 'set', 'maxlv': 2}, {'pick': 'deepen', 'container': 'list', 'maxlv': 2},
+               {'pick': 'deepen', 'container': 'set', 'maxlv': 2}]
+        if rng.random() < 0.4:
+            ops.append({'pick': 'isolated', 'container': 'set', 'maxlv': 2})
+        add([uniform_axis(p, rng.randint(3, 4))], rng.choice([None, None, 2]), True, rng.choice(bd_choices_1), ops, c % 5, 'deep-1d', 400)
+    for c in range(2 if thorough else 0):
+        add([uniform_axis(4, 3), uniform_axis(4 - c, 3)], None, True, rng.choice(bd_choices_2),
+            [{'pick': 'interior', 'container': 'set', 'maxlv': 2}, {'pick': 'deepen', 'container': 'list', 'maxlv': 2},
+             {'pick': 'deepen', 'container': 'set', 'maxlv': 2, 'cap': 16}], 3, 'deep-2d', 900)
     n1 = 40 if thorough else 7
     n2 = 60 if thorough else 5
     n3 = 4 if thorough else 0
@@ -465,13 +496,13 @@ def gen_cases(ctx):
         n = rng.randint(2, 4)
         ax = uniform_axis(p, n, mult=rng.choice([1, 1, min(2, p)]))
         add([ax], rng.choice([1, 2, None]), rng.random() < 0.5, rng.choice(bd_choices_1),
-            rand_ops(1, rng.randint(2, 5), 2), c % 4, 'random-1d', 400)
+            rand_ops(1, rng.randint(2, 5), 2), c % 5, 'random-1d', 400)
     for c in range(n2):
         p = [rng.choice([1, 2, 2, 3]) if not thorough else rng.randint(1, 4) for _ in range(2)]
         n = [rng.randint(2, 3), rng.randint(1, 3)]
         maxlv = 1 if (max(p) >= 3 or not thorough) else rng.choice([1, 2])
         add([uniform_axis(p[0], n[0]), uniform_axis(p[1], n[1])], rng.choice([1, 2, None]), rng.random() < 0.5, rng.choice(bd_choices_2),
-            rand_ops(2, rng.randint(2, 4), maxlv), c % 4, 'random-2d', 400)
+            rand_ops(2, rng.randint(2, 4), maxlv), c % 5, 'random-2d', 400)
     for c in range(n3):
         add([uniform_axis(rng.randint(1, 2), 2), uniform_axis(1, 2), uniform_axis(rng.randint(1, 2), 1)], rng.choice([1, None]),
             rng.random() < 0.5, rng.choice([None, [], [[2, 0]]]), rand_ops(3, 2, 0), 0, 'random-3d', 300)
@@ -548,7 +579,9 @@ def run(ctx):
         replay = {'cfg': c['cfg'], 'ops': r.get('ops', c['ops']), 'forms': c['forms'], 'assemble_between': c.get('assemble_between'),
                   'how': 'HSpace(kvs from breaks/mults, truncate, disparity, bdspecs [omitted when "default"]); hs.refine({lv: container(cells)}, truncate=trunc) per op; '
                          'assemble.assemble(parse_vf(expr), hs, symmetric, geo=..., f=...) or HDiscretization(hs, vf, args).assemble_matrix/assemble_functional; '
-                         'with assemble_between: assemble.assemble(expr, hs, geo) and hs.dirichlet_dofs() after every refinement but the last, on the same object'}
+                         'with assemble_between: assemble.assemble(expr, hs, geo) and hs.dirichlet_dofs() after every refinement but the last, on the same object; '
+                         'forms with entry=session: ONE hd = HDiscretization(hs, the bilinear session form, merged args) per basis (hs.truncate False: forms in listed order, '
+                         'True: reverse order): hd.assemble_matrix(), hd.assemble_functional(vf), hd.assemble_rhs() for kind=assemble_rhs (f(x..) = fphys[0] + sum fphys[i] x_i physical)'}
         if r['status'] != 'Ok':
             nfail += 1
             ctx.report('impl:construct:%dd' % dim, 'constructing / refining the space raised %s' % r['status'], replay)
